@@ -60,12 +60,42 @@ Definition is_integer_legacy (s : string) : bool :=
   | None => false
   end.
 
+(* unicode/utf8.ValidString on the bytes of the string: shortest forms only, no surrogates, at most U+10FFFF
+   (a string that is not valid UTF-8 does not survive the JSON of an exported genesis) *)
+Definition cont (c : ascii) : bool := let n := N_of_ascii c in ((128 <=? n) && (n <=? 191))%N.
+Fixpoint utf8_valid (s : string) : bool :=
+  match s with
+  | "" => true
+  | String c r =>
+      let n := N_of_ascii c in
+      if (n <? 128)%N then utf8_valid r
+      else if ((194 <=? n) && (n <=? 223))%N then
+        match r with String c1 r1 => cont c1 && utf8_valid r1 | _ => false end
+      else if ((224 <=? n) && (n <=? 239))%N then
+        match r with
+        | String c1 (String c2 r2) =>
+            let n1 := N_of_ascii c1 in
+            cont c1 && cont c2 &&
+            (if (n =? 224)%N then (160 <=? n1)%N else if (n =? 237)%N then (n1 <=? 159)%N else true) && utf8_valid r2
+        | _ => false
+        end
+      else if ((240 <=? n) && (n <=? 244))%N then
+        match r with
+        | String c1 (String c2 (String c3 r3)) =>
+            let n1 := N_of_ascii c1 in
+            cont c1 && cont c2 && cont c3 &&
+            (if (n =? 240)%N then (144 <=? n1)%N else if (n =? 244)%N then (n1 <=? 143)%N else true) && utf8_valid r3
+        | _ => false
+        end
+      else false
+  end.
+
 Definition valid_counterparty_with (intcheck : string -> bool) (s : string) (proto : Z) : bool :=
   negb (String.eqb s "") &&
   (slen s <=? max_counterparty_id_length) &&
   (if Z.eqb proto protocol_ibc then is_valid_channel_id s
    else if Z.eqb proto protocol_cctp || Z.eqb proto protocol_hyperlane then intcheck s
-   else if Z.eqb proto protocol_internal then no_char "000"%char s
+   else if Z.eqb proto protocol_internal then no_char "000"%char s && utf8_valid s
    else false).
 Definition valid_counterparty := valid_counterparty_with is_domain_string.
 
